@@ -458,6 +458,9 @@ impl<'p> Gen<'p> {
 
 
 pub fn generate(profile: &str, seed: u64) -> Scenario {
+    if matches!(profile, "C03" | "C05" | "C06") && Rng::new(seed ^ 0x6A7D).chance(3, 100) {
+        return gen_guard_travel(profile, seed);
+    }
     match profile {
         "C06" => gen_c06(seed),
         "C07" => gen_c07(seed),
@@ -515,6 +518,57 @@ pub fn generate(profile: &str, seed: u64) -> Scenario {
         }
         _ => gen_general(profile, seed, &Params::base()),
     }
+}
+
+/// Guards must stay with the thread that acquired them. Two threads hold collections over
+/// disjoint locks of one kind; one lends `&mut` of a member guard, the other swaps it with one
+/// of its own (both are no-ops unless member guards are Send). Or: a thread sends its whole
+/// guard away and another thread drops it (no-op unless guards, key and all, are Send).
+pub fn gen_guard_travel(profile: &str, seed: u64) -> Scenario {
+    let mut rng = Rng::new(seed ^ 0x7A4E);
+    let p = Params::base();
+    let mut g = Gen::new(seed, &p);
+    let rw = rng.chance(1, 2);
+    let kind = if rw { *rng.pick(&[LeafKind::R, LeafKind::R, LeafKind::PR]) } else { *rng.pick(&[LeafKind::M, LeafKind::M, LeafKind::PM]) };
+    let na = rng.range(1, 3);
+    let nb = rng.range(1, 3);
+    let leaves: Vec<LeafKind> = (0..na + nb).map(|_| kind).collect();
+    let mut slots: Vec<Slot> = (0..na + nb).map(Slot::Leaf).collect();
+    rng.shuffle(&mut slots);
+    let mk = |rng: &mut Rng, g: &mut Gen, ls: Vec<usize>| -> TSpec {
+        if rng.chance(1, 4) {
+            let (kind, boxed, poison) = *rng.pick(&[(CollKind::Boxed, false, false), (CollKind::Boxed, true, false), (CollKind::Retry, false, false), (CollKind::Ref, true, false), (CollKind::Boxed, false, true)]);
+            TSpec::Slice { kind, boxed, members: ls, poison }
+        } else {
+            let cont = g.pick_cont(ls.len());
+            let kind = *rng.pick(&[CollKind::Boxed, CollKind::Ref, CollKind::Retry]);
+            TSpec::Coll { kind, cont, members: ls.into_iter().map(TSpec::Leaf).collect(), poison: kind != CollKind::Ref && rng.chance(1, 6) }
+        }
+    };
+    let ta = mk(&mut rng, &mut g, (0..na).collect());
+    let tb = mk(&mut rng, &mut g, (na..na + nb).collect());
+    let w = WorldSpec { leaves, units: vec![], slots, targets: vec![ta, tb, TSpec::Leaf(0), TSpec::Leaf(na)], datas: vec![], gates: 0, tags: 0 };
+    let shared = rw && rng.chance(1, 2);
+    let api = |rng: &mut Rng| if shared { *rng.pick(&[Api::Read, Api::TryRead]) } else { *rng.pick(&[Api::Lock, Api::TryLock]) };
+    let mut threads: Vec<Vec<Step>> = Vec::new();
+    if rng.chance(2, 3) {
+        // lend and swap
+        let rel = |rng: &mut Rng| if rng.chance(1, 2) { Release::Unlock } else { Release::Drop };
+        threads.push(vec![Step::Acquire(Acq { target: 0, rebuild: false, api: api(&mut rng), lent_key: false, body: vec![BodyOp::LendGuard(rng.below(na)), BodyOp::Read(0)], release: rel(&mut rng), mutate: false })]);
+        threads.push(vec![Step::Acquire(Acq { target: 1, rebuild: false, api: api(&mut rng), lent_key: false, body: vec![BodyOp::SwapLent(rng.below(nb)), BodyOp::Yield], release: rel(&mut rng), mutate: false }), Step::Key(KeyOp::Get)]);
+    } else {
+        // send a whole guard away; single locks have guards of their own
+        let t = *rng.pick(&[0usize, 2]);
+        threads.push(vec![Step::Acquire(Acq { target: t, rebuild: false, api: api(&mut rng), lent_key: false, body: vec![BodyOp::Read(0)], release: Release::SendAway, mutate: false }), Step::Key(KeyOp::Get)]);
+        threads.push(vec![Step::Key(KeyOp::Get), Step::Yield, Step::DropForeignGuard, Step::Key(KeyOp::Get), Step::Key(KeyOp::Drop), Step::Key(KeyOp::Get)]);
+    }
+    if rng.chance(1, 3) {
+        let t = rng.below(4);
+        threads.push(vec![Step::Acquire(Acq { target: t, rebuild: false, api: Api::TryLock, lent_key: false, body: vec![], release: Release::Drop, mutate: false })]);
+    }
+    let mut cfg = g.cfg(40);
+    cfg.faults.try_refuse_pct = 0;
+    Scenario { world: w, program: Program { threads }, cfg, profile: profile.to_string() }
 }
 
 pub fn gen_general(profile: &str, seed: u64, p: &Params) -> Scenario {
